@@ -343,6 +343,15 @@ fn deep<'d, E: EndianParse + core::fmt::Debug>(f: &ElfBytes<'d, E>, data: &'d [u
             st.sink.0 = st.sink.0.wrapping_add(h.sh_size);
         }
     }
+    // names that tools treat specially (name-specific code paths: debug sections and their legacy compressed
+    // spelling, the usual linker-made sections)
+    const WELL_KNOWN: [&str; 28] = [".debug_info", ".debug_str", ".debug_line", ".zdebug_info", ".debug_", ".text", ".data", ".bss", ".rodata", ".symtab", ".strtab", ".shstrtab", ".dynsym", ".dynstr", ".dynamic", ".hash", ".gnu.hash", ".gnu.version", ".gnu.version_r", ".gnu.version_d", ".note.gnu.build-id", ".note.ABI-tag", ".rela.dyn", ".rel.plt", ".comment", ".eh_frame", ".interp", ".gnu_debuglink"];
+    for _ in 0..3 {
+        let name = WELL_KNOWN[c.idx(WELL_KNOWN.len())];
+        if let Some(Some(h)) = fold!(st, f.section_header_by_name(name)) {
+            st.sink.0 = st.sink.0.wrapping_add(h.sh_size);
+        }
+    }
     // fabricated headers (all fields are public)
     for _ in 0..2 {
         st.flags |= F_FABRICATED;
